@@ -16,16 +16,17 @@ def build(asm, tier):
     asm.extracted(t, 'ommx.v1.rs message types')
     asm.file('spec/poly_value.rs')
     asm.file('spec/merge_spec.rs')
+    asm.file('spec/kmerge_spec.rs')
     asm.raw(al.leaf_spec_text(), 'generated remainder definitions')
     asm.file('spec/fn_algebra.rs')
     asm.raw(al.CONV_SPEC, 'upcast / negation / difference predicates of the macro layer')
     asm.raw(al.LEMMAS, 'algebra lemmas')
-    asm.raw('} // mod lib\npub mod units {\n' + common.UNITS_USES + 'broadcast use super::lib::ax_default_f64;\n')
+    asm.raw('} // mod lib\npub mod units {\n' + common.UNITS_USES + 'broadcast use super::lib::ax_default_f64, super::lib::ax_pair_u64_cmp;\n')
     stubs, names = al.leaf_stubs()
     asm.raw(stubs + al.MERGE_STUBS, 'assumed callee contracts (BTreeMap-merge leaves)')
     for n in names:
         asm.stubs.append(dict(unit=n, proved_in=''))
-    for u in al.zero_linear() + al.zero_quadratic_polynomial() + al.from_units() + [al.linear_add_f64(), al.linear_mul_f64(), al.quadratic_add_f64(), al.quadratic_mul_f64(), al.polynomial_mul_f64(), al.function_add(), al.function_mul(), al.linear_add_linear(), al.linear_new(), al.quadratic_add_linear()] + al.macro_units() + al.typed_macro_units():
+    for u in al.zero_linear() + al.zero_quadratic_polynomial() + al.from_units() + [al.linear_add_f64(), al.linear_mul_f64(), al.quadratic_add_f64(), al.quadratic_mul_f64(), al.polynomial_mul_f64(), al.function_add(), al.function_mul(), al.linear_add_linear(), al.linear_new(), al.quadratic_add_linear(), al.quadratic_quad_iter(), al.quadratic_from_iter(), al.quadratic_add_quadratic()] + al.macro_units() + al.typed_macro_units():
         asm.unit(u)
     asm.raw('} // mod units\n')
     asm.guard(common.guard_fn('c02', '', uses='use super::lib::*;'), 'vacuity: prelude')
@@ -37,10 +38,10 @@ proof fn vacuity_pre(r: v1::Function, a: v1::Function, b: v1::Function, m: Map<u
     return dict(
         min_items=10,
         trusted_base=common.TRUSTED_COMMON + common.T4_COLLECTIONS + [
-            'T4 std contracts of the BTreeMap entry API (entry / or_default with a prophecy-style &mut, remove) and of into_iter().map().collect() (ascending key order): prelude/btree_entry.rs',
+            'T4 std contracts of the BTreeMap entry API (entry / or_default / or_insert with a prophecy-style &mut, remove) and of into_iter().map().collect() (ascending key order), helper contracts zip_zip (Iterator::zip of three slices), chain_refs, btree_into_vec2 / btreemap_collect2 (key-ordered listing of a map with pair keys), vassert_eq (assert_eq! as a precondition), axiom ax_pair_u64_cmp (lexicographic Ord of (u64,u64)) and ax_default_f64 (f64::default() == 0.0): prelude/btree_entry.rs',
             'T5 ASSUMED leaf contracts (BTreeMap entry/merge code, not verified): ' + ', '.join(names) + ' - each with an uninterpreted epsilon-drop remainder',
             'R25 index loop for `for term in &mut self.terms`; `.expect("Empty Function")` treated as unwrap (panic on an unset oneof: precondition of the operators)',
         ],
         assumptions=common.A1 + ['operands of Function + / * have their oneof set (the code panics otherwise: observation outside the property)'],
-        not_covered=['the BTreeMap-merge leaves themselves and the term iterators (IntoIterator for &Linear/&Quadratic/&Polynomial/&Function)', 'the size of the epsilon-drop remainder'],
+        not_covered=['the BTreeMap-merge leaves other than Linear+Linear, Linear::new, Quadratic+Linear, Quadratic+Quadratic, FromIterator for Quadratic, and the term iterators (IntoIterator for &Linear/&Quadratic/&Polynomial/&Function)', 'the size of the epsilon-drop remainder'],
     )
